@@ -22,7 +22,7 @@ Next == /\ (OneStep => last = None)
            \/ NegAct \/ AbsAct \/ SignAct
            \/ \E b \in Durs : AddAct(b) \/ SubAct(b) \/ CmpAct(b)
            \/ \E o \in RoundOpts : RoundAct(o)
-           \/ \E u \in {"day", "hour", "minute", "second", "millisecond", "microsecond", "nanosecond", "week"} : TotalAct(u)
+           \/ \E u \in {"day", "hour", "minute", "second", "millisecond", "microsecond", "nanosecond", "week", "auto"} : TotalAct(u)
 Spec == Init /\ [][Next]_vars
 
 CurValid == ValidDur(cur)
